@@ -89,6 +89,26 @@ Theorem C14_affinity : forall c n d rls ls a1 a2 x1 x2 j1 j2,
   a_wid x1 = a_wid x2.
 Proof. exact kp_affinity. Qed.
 
+(* (6') the same for STICKY-queuer routing since fix 36a533a (F11), for every history without stale
+   completions -- in particular through the exit window of a worker (stopped gracefully, post_stop
+   still running, supervisor not yet told), where the rule before the fix put one key on two workers
+   (refutation example below). owner_router c = key-persistent, or sticky with c_sticky_pending. *)
+Theorem C14_sticky_affinity : forall c n d rls ls a1 a2 x1 x2 j1 j2,
+  c_router c = RSticky -> c_sticky_pending c = true ->
+  run_ok c (init c n d rls) ls ->
+  let w := run c (init c n d rls) ls in
+  lookup a1 (actors w) = Some x1 -> lookup a2 (actors w) = Some x2 ->
+  In j1 (actor_jobs x1) -> In j2 (actor_jobs x2) -> j_key j1 = j_key j2 ->
+  a_wid x1 = a_wid x2.
+Proof. intros c n d rls ls a1 a2 x1 x2 j1 j2 R S. apply owner_affinity. right. split; assumption. Qed.
+
+Theorem C14_sticky_one_owner : forall c n d rls ls k w1 w2 p1 p2,
+  c_router c = RSticky -> c_sticky_pending c = true ->
+  let pl := pool (run c (init c n d rls) ls) in
+  lookup w1 pl = Some p1 -> lookup w2 pl = Some p2 ->
+  has_pending p1 k = true -> has_pending p2 k = true -> w1 = w2.
+Proof. intros c n d rls ls k w1 w2 p1 p2 R S. apply one_owner. right. split; assumption. Qed.
+
 (* (7) the coupling invariant itself (all routers): for histories without stale completions,
    whatever a worker actor holds is recorded in curr_jobs of the slot it stands behind *)
 Theorem C14_held_job_is_recorded : forall c n d rls ls a x j,
@@ -124,8 +144,7 @@ Theorem C14_actor_busy_takes_nothing : forall a w x,
 Proof. exact one_at_a_time_actor_side. Qed.
 
 (* OPEN (stated, not proved in this round):
-   C14_affinity for STICKY routing (key-persistent: proved, (6)): needs uniqueness of the worker
-     processing a key, which in turn needs the queuer invariant below.
+   (affinity for sticky routing: proved since fix 36a533a, (6').)
    C14_key_order (global): with key-persistent routing the EStart events of one key follow dispatch order.
      Proved so far: slot-level FIFO (8), one owner per key (5), coupling (7). Still needed: "factory queue
      non-empty => pool empty" for worker-queueing routers (true since aa3c2d4; needs the pool-domain
@@ -207,6 +226,23 @@ Example f3_is_excluded :
   run_okb kp1 (init kp1 1 None []) (labels_of kp1 1 None [] f3_ops) = false.
 Proof. vm_compute. reflexivity. Qed.
 
+(* ---- F11 (fixed in /repo by 36a533a): sticky-queuer routing, worker 0 is stopped from outside and
+   parks in its post_stop (exit window); job 1 (key 5) routed to it waits in its queue with curr_jobs
+   empty. Under the pre-fix rule job 2 (key 5) goes to idle worker 1 and after the replacement both
+   run at once; with the fix job 2 joins job 1 in worker 0's queue. No stale completion is involved. *)
+Definition sq_pre := mk_config_pre_f11 RSticky false [] [].
+Definition sq_fix := mk_config RSticky false [] [].
+Definition f11_ops := [OXStop 0; ODispatch 1 5 None false; ODispatch 2 5 None false; OXRelease 0; OQuery].
+Example C14_sticky_window_refuted_before_fix :
+  check_C14 sq_pre 2 None f11_ops (scenario_events sq_pre 2 None [] f11_ops) = [AAffinity 5 1 0 3]
+  /\ run_okb sq_pre (init sq_pre 2 None []) (labels_of sq_pre 2 None [] f11_ops) = true.
+Proof. vm_compute. split; reflexivity. Qed.
+Example C14_sticky_window_after_fix :
+  check_C14 sq_fix 2 None f11_ops (scenario_events sq_fix 2 None [] f11_ops) = []
+  /\ started_order (scenario_events sq_fix 2 None [] f11_ops) = [1]
+  /\ run_okb sq_fix (init sq_fix 2 None []) (labels_of sq_fix 2 None [] f11_ops) = true.
+Proof. vm_compute. repeat split; reflexivity. Qed.
+
 (* ---- F8 (fixed in /repo by aa3c2d4): key-persistent routing started with an empty pool. Under the
    pre-fix rule only pool_size backlogged jobs are routed when the pool grows; job 3 (same key),
    dispatched afterwards, goes straight to the worker's queue and starts before job 2. *)
@@ -234,6 +270,8 @@ Print Assumptions C14_actor_busy_takes_nothing.
 Print Assumptions C14_key_persistent_one_owner.
 Print Assumptions C14_affinity.
 Print Assumptions C14_held_job_is_recorded.
+Print Assumptions C14_sticky_affinity.
+Print Assumptions C14_sticky_one_owner.
 Print Assumptions C14_key_order_partial_enqueue.
 Print Assumptions C14_key_order_partial_complete.
 Print Assumptions C14_key_order_partial_replace.
